@@ -249,3 +249,27 @@ def run(repo: Repo, rep: Report, tier: str) -> None:
         paths = [p for p in am.paths(fn) if not p.raised]
         ok = all(any(e[0] == "user" and e[1].kind == "prim_of_pdu" for e in p.effects) for p in paths)
         rep.check(ok, "ar2-indication", f"fsm.{fn.name}", "to_user_queue.put(pdu.to_primitive())", f"{a} must hand the A-RELEASE indication to the user queue", mod=am.mod, node=fn)
+
+    # ---- the reactor that answers must not be left paused ------------------------------------------
+    # The A-RELEASE-RQ is answered by Association._run_reactor, which blocks on _reactor_checkpoint
+    # while a DIMSE exchange is in progress. C24's checkpoint rule decides that every send_* /
+    # response generator hands the reactor back; its failures are failures of this property too.
+    rep.rule("reactor-unpaused", "every SCU exchange that paused the reactor un-pauses it before it returns / surfaces its final result (C24's checkpoint rule)")
+    from . import c24
+    sub = Report("C24", tier, c24.LEVEL, "")
+    c24.run(repo, sub, tier)
+    n_cp = 0
+    for o in sub.obligations:
+        if o["rule"] != "checkpoint":
+            continue
+        n_cp += 1
+        if o["ok"]:
+            rep.ok("reactor-unpaused", o["instance"], o.get("detail", ""))
+    for f in sub.failures:
+        if f["rule"] == "checkpoint":
+            f2 = dict(f)
+            f2["rule"] = "reactor-unpaused"
+            f2["detail"] = f["detail"] + " - while it is paused the association reactor cannot see or answer the peer's A-RELEASE-RQ"
+            rep.obligations.append(f2)
+            rep.failures.append(f2)
+    rep.floor("reactor hand-back obligations", n_cp, 10)
